@@ -4,6 +4,7 @@
   Statements not yet proved are in lean/PENDING.md.
 -/
 import ModVerif.Model.Modfile.Work
+import ModVerif.Proofs.ModfileWitness
 namespace ModVerif.Props.C20
 open ModVerif ModVerif.Modfile
 
@@ -20,6 +21,6 @@ theorem C20_violated_modulePath_block_line :
       (f.syn.findLine m.lineId).map (·.inBlock) = some false ∧
       Module.checkImportPath m.mod.path = .ok () ∧
       modulePath f8Input ≠ m.mod.path := by
-  refine ⟨_, _, rfl, rfl, ?_, ?_, ?_⟩ <;> decide +kernel
+  exact Proofs.ModfileWitness.modulePathDisagrees_spec (by decide +kernel)
 
 end ModVerif.Props.C20
